@@ -21,6 +21,8 @@ def texts() -> t.List[str]:
     out += CHARS
     out += ["".join(p) for p in itertools.product(CHARS, repeat=2)]
     out += ["a" * 300, "\U0001F600", "it's 100% \\ (ok) $", "\\27", "\\5c"]
+    # white space and separators beyond Latin-1, text a Unicode normalisation would rewrite, C1 controls
+    out += ["\u3000", "a\u2028b", "\u202f", "\u2000x", "\u2029", "\u0085", "\u00a0", "\u1680", "\ufeff", "e\u0301", "\u212b", "\ufb01", "\uff11", "\u0130", "\x7f", "\x1f\x00"]
     return out
 
 
@@ -33,6 +35,8 @@ def ext_domain(tx: t.List[str]) -> t.List[t.Dict[str, t.List[str]]]:
     out.append({"MANY": ["v%d" % i for i in range(40)] + [tx[1], tx[2]], "Z": [tx[3]]})  # many values
     out.append({"HUGE": ["v%d" % i for i in range(1500)]})  # more values than the interpreter's recursion limit
     out.append({"A": ["x"], "a": ["y"]})  # names differing only in case are different extensions
+    # names that themselves begin with the prefix the writer adds (the key is what follows the first "X-")
+    out += [{"X-RAY": ["v"]}, {"x-flag": ["v"]}, {"X-ORIGIN": ["a"], "ORIGIN": ["b"]}, {"X-": ["v"]}, {"X-X-A": ["v"], "X-A": ["w"], "A": ["x"]}]
     return out
 
 
